@@ -1,5 +1,8 @@
 import Postcard.Model.Basic
 import Postcard.Model.Utf8
+import Postcard.Model.Schema
+import Postcard.Model.SchemaSer
+import Postcard.Model.CallTree
 /-
   Postcard.Model.Json — model of the parts of `serde_json` (1.0.140, default
   features: no `preserve_order`, no `arbitrary_precision`) that postcard-dyn
@@ -11,6 +14,11 @@ import Postcard.Model.Utf8
   Floats are carried as their IEEE-754 bit patterns; the conversions between
   number kinds are a parameter (`FloatOps`) so that the model stays
   kernel-reducible; the driver instantiates it with Lean's `Float`/`Float32`.
+
+  Last section: `OwnedDataModelType` ⇄ `serde_json::Value` (`jsonOfSchema` =
+  `serde_json::to_value(&schema)`, `schemaOfJson` = `serde_json::from_value`),
+  i.e. what serde_json does with serde-derive's externally tagged enums; used
+  by the `Schema` kind of postcard-dyn.
   Core Lean only.
 -/
 namespace Postcard
@@ -168,5 +176,272 @@ def objInsertAll (acc : List (List Byte × Json)) : List (List Byte × Json) →
 def Json.get (key : List Byte) : Json → Option Json
   | .obj kvs => objGet key kvs
   | _ => none
+
+/-! ### `str::chars()` -/
+
+/-- mirrors `s.chars().count() == 1` (ser.rs) and
+`matches!((chars.next(), chars.next()), (Some(_), None))` (de.rs) on a VALID
+UTF-8 string: the first scalar exhausts the string. -/
+def oneScalar (s : List Byte) : Bool :=
+  match utf8Next s with
+  | some (_, []) => true
+  | _ => false
+
+/-! ### `OwnedDataModelType` ⇄ `serde_json::Value`
+
+serde-derive, externally tagged (the default): a unit variant is the string of
+its identifier, a newtype variant `{identifier: inner}`, a struct variant
+`{identifier: {field: value, …}}`; a struct is an object; `Box<T>` is
+transparent, `Box<str>` a string, `Box<[T]>` an array.  Object entries are in
+ascending key order (`BTreeMap`).  The identifiers are `kindName` /
+`dataKindName` (Model/CallTree.lean), the same the call tree `ctSchema` carries. -/
+
+/-- all kinds, in declaration order. -/
+def allKinds : List SchemaKind :=
+  [.bool, .i8, .u8, .i16, .i32, .i64, .i128, .u16, .u32, .u64, .u128, .usize, .isize, .f32, .f64,
+   .char, .string, .byteArray, .option, .unit, .seq, .tuple, .map, .struct, .enum, .schema]
+
+def allDataKinds : List DataKind := [.unit, .newtype, .tuple, .struct]
+
+/-- mirrors serde-derive's `__FieldVisitor::visit_str` for `OwnedDataModelType`:
+`match v { "Bool" => __field0, …, _ => Err(unknown_variant) }`. -/
+def kindOfName (n : Name) : Option SchemaKind := allKinds.find? fun k => kindName k = n
+
+/-- the same for `OwnedData`. -/
+def dataKindOfName (n : Name) : Option DataKind := allDataKinds.find? fun k => dataKindName k = n
+
+/-- the unit variants of `OwnedDataModelType`. -/
+def schemaOfUnitKind : SchemaKind → Option Schema
+  | .bool => some .bool | .i8 => some .i8 | .u8 => some .u8 | .i16 => some .i16
+  | .i32 => some .i32 | .i64 => some .i64 | .i128 => some .i128 | .u16 => some .u16
+  | .u32 => some .u32 | .u64 => some .u64 | .u128 => some .u128 | .usize => some .usize
+  | .isize => some .isize | .f32 => some .f32 | .f64 => some .f64 | .char => some .char
+  | .string => some .string | .byteArray => some .byteArray | .unit => some .unit
+  | .schema => some .schema
+  | .option => none | .seq => none | .tuple => none | .map => none | .struct => none | .enum => none
+
+mutual
+/-- mirrors `serde_json::to_value(&schema)` for `schema : OwnedDataModelType`
+(never fails: no map with non-string keys, no 128-bit integers). -/
+def jsonOfSchema : Schema → Json
+  | .option t => .obj [(kindName .option, jsonOfSchema t)]
+  | .seq t => .obj [(kindName .seq, jsonOfSchema t)]
+  | .tuple ts => .obj [(kindName .tuple, .arr (jsonOfSchemaList ts))]
+  | .map k v =>
+    .obj [(kindName .map, .obj [(ascii "key", jsonOfSchema k), (ascii "val", jsonOfSchema v)])]
+  | .struct n d =>
+    .obj [(kindName .struct, .obj [(ascii "data", jsonOfData d), (ascii "name", .str n)])]
+  | .enum n vs =>
+    .obj [(kindName .enum, .obj [(ascii "name", .str n), (ascii "variants", .arr (jsonOfVariants vs))])]
+  | .bool => .str (kindName .bool)
+  | .i8 => .str (kindName .i8)
+  | .u8 => .str (kindName .u8)
+  | .i16 => .str (kindName .i16)
+  | .i32 => .str (kindName .i32)
+  | .i64 => .str (kindName .i64)
+  | .i128 => .str (kindName .i128)
+  | .u16 => .str (kindName .u16)
+  | .u32 => .str (kindName .u32)
+  | .u64 => .str (kindName .u64)
+  | .u128 => .str (kindName .u128)
+  | .usize => .str (kindName .usize)
+  | .isize => .str (kindName .isize)
+  | .f32 => .str (kindName .f32)
+  | .f64 => .str (kindName .f64)
+  | .char => .str (kindName .char)
+  | .string => .str (kindName .string)
+  | .byteArray => .str (kindName .byteArray)
+  | .unit => .str (kindName .unit)
+  | .schema => .str (kindName .schema)
+def jsonOfSchemaList : List Schema → List Json
+  | [] => []
+  | t :: ts => jsonOfSchema t :: jsonOfSchemaList ts
+/-- `OwnedData`. -/
+def jsonOfData : SData → Json
+  | .unit => .str (dataKindName .unit)
+  | .newtype t => .obj [(dataKindName .newtype, jsonOfSchema t)]
+  | .tuple ts => .obj [(dataKindName .tuple, .arr (jsonOfSchemaList ts))]
+  | .struct fs => .obj [(dataKindName .struct, .arr (jsonOfFields fs))]
+/-- elements: `OwnedNamedField { name, ty }`. -/
+def jsonOfFields : List SField → List Json
+  | [] => []
+  | .mk n t :: fs => .obj [(ascii "name", .str n), (ascii "ty", jsonOfSchema t)] :: jsonOfFields fs
+/-- elements: `OwnedVariant { name, data }` (keys ascending: `data` < `name`). -/
+def jsonOfVariants : List SVariant → List Json
+  | [] => []
+  | .mk n d :: vs => .obj [(ascii "data", jsonOfData d), (ascii "name", .str n)] :: jsonOfVariants vs
+end
+
+/-- `Box<str>` field of a derived struct read from an object: `obj[key]` must be
+present (`missing_field` otherwise) and a `Value::String`. -/
+def nameGet (key : Name) (kvs : List (List Byte × Json)) : Option Name :=
+  match objGet key kvs with
+  | some (.str s) => some s
+  | _ => none
+
+mutual
+/-- mirrors `serde_json::from_value::<OwnedDataModelType>(value)` (`none` = any `Err`).
+`Value::deserialize_enum`: a string is a variant without payload, an object
+with exactly one entry is `variant: payload`, anything else is an error.
+`VariantDeserializer`: `unit_variant` accepts no payload or a `null` payload;
+`newtype_variant` requires a payload; `struct_variant` requires an OBJECT
+payload (serde-derive's `visit_map`: unknown keys ignored, missing fields an
+error; duplicates cannot occur in a `BTreeMap`). -/
+def schemaOfJson : Json → Option Schema
+  | .str s =>
+    match kindOfName s with
+    | none => none                                   -- unknown_variant
+    | some k => schemaOfUnitKind k                         -- payload-carrying variants: invalid_type(UnitVariant)
+  | .obj [(k, v)] =>
+    match kindOfName k with
+    | none => none
+    | some .option =>                                -- Option(Box<Self>)
+      match schemaOfJson v with
+      | some t => some (.option t)
+      | none => none
+    | some .seq =>                                   -- Seq(Box<Self>)
+      match schemaOfJson v with
+      | some t => some (.seq t)
+      | none => none
+    | some .tuple =>                                 -- Tuple(Box<[Self]>): `Vec<T>` needs an array
+      match v with
+      | .arr xs =>
+        match schemaOfJsonList xs with
+        | some ts => some (.tuple ts)
+        | none => none
+      | _ => none
+    | some .map =>                                   -- Map { key, val }
+      match v with
+      | .obj kvs =>
+        match schemaGet (ascii "key") kvs, schemaGet (ascii "val") kvs with
+        | some a, some b => some (.map a b)
+        | _, _ => none
+      | _ => none
+    | some .struct =>                                -- Struct { name, data }
+      match v with
+      | .obj kvs =>
+        match nameGet (ascii "name") kvs, dataGet (ascii "data") kvs with
+        | some n, some d => some (.struct n d)
+        | _, _ => none
+      | _ => none
+    | some .enum =>                                  -- Enum { name, variants }
+      match v with
+      | .obj kvs =>
+        match nameGet (ascii "name") kvs, variantsGet (ascii "variants") kvs with
+        | some n, some vs => some (.enum n vs)
+        | _, _ => none
+      | _ => none
+    | some kd =>                                     -- unit variant with a payload: `<()>::deserialize(payload)`
+      match v with
+      | .null => schemaOfUnitKind kd
+      | _ => none
+  | _ => none                                        -- invalid_type / "map with a single key"
+/-- `Vec<OwnedDataModelType>` from the elements of an array. -/
+def schemaOfJsonList : List Json → Option (List Schema)
+  | [] => some []
+  | x :: xs =>
+    match schemaOfJson x, schemaOfJsonList xs with
+    | some t, some ts => some (t :: ts)
+    | _, _ => none
+/-- field `key : OwnedDataModelType` of a struct (variant) read from an object. -/
+def schemaGet (key : Name) : List (List Byte × Json) → Option Schema
+  | [] => none                                       -- missing_field
+  | (k, v) :: rest => if k = key then schemaOfJson v else schemaGet key rest
+/-- `serde_json::from_value::<OwnedData>`. -/
+def dataOfJson : Json → Option SData
+  | .str s =>
+    match dataKindOfName s with
+    | some .unit => some .unit
+    | _ => none
+  | .obj [(k, v)] =>
+    match dataKindOfName k with
+    | none => none
+    | some .unit =>
+      match v with
+      | .null => some .unit
+      | _ => none
+    | some .newtype =>
+      match schemaOfJson v with
+      | some t => some (.newtype t)
+      | none => none
+    | some .tuple =>
+      match v with
+      | .arr xs =>
+        match schemaOfJsonList xs with
+        | some ts => some (.tuple ts)
+        | none => none
+      | _ => none
+    | some .struct =>
+      match v with
+      | .arr xs =>
+        match fieldsOfJsonList xs with
+        | some fs => some (.struct fs)
+        | none => none
+      | _ => none
+  | _ => none
+def dataGet (key : Name) : List (List Byte × Json) → Option SData
+  | [] => none
+  | (k, v) :: rest => if k = key then dataOfJson v else dataGet key rest
+/-- `OwnedNamedField` (`Value::deserialize_struct`): an object, or an array of
+exactly the two fields in declaration order (`visit_seq`). -/
+def fieldOfJson : Json → Option SField
+  | .arr [.str n, t] =>
+    match schemaOfJson t with
+    | some ty => some (.mk n ty)
+    | none => none
+  | .obj kvs =>
+    match nameGet (ascii "name") kvs, schemaGet (ascii "ty") kvs with
+    | some n, some ty => some (.mk n ty)
+    | _, _ => none
+  | _ => none
+def fieldsOfJsonList : List Json → Option (List SField)
+  | [] => some []
+  | x :: xs =>
+    match fieldOfJson x, fieldsOfJsonList xs with
+    | some f, some fs => some (f :: fs)
+    | _, _ => none
+/-- `OwnedVariant`: an object, or the array `[name, data]`. -/
+def variantOfJson : Json → Option SVariant
+  | .arr [.str n, d] =>
+    match dataOfJson d with
+    | some data => some (.mk n data)
+    | none => none
+  | .obj kvs =>
+    match nameGet (ascii "name") kvs, dataGet (ascii "data") kvs with
+    | some n, some data => some (.mk n data)
+    | _, _ => none
+  | _ => none
+def variantsOfJsonList : List Json → Option (List SVariant)
+  | [] => some []
+  | x :: xs =>
+    match variantOfJson x, variantsOfJsonList xs with
+    | some v, some vs => some (v :: vs)
+    | _, _ => none
+/-- field `key : Box<[OwnedVariant]>` of `Enum { .. }` read from an object. -/
+def variantsGet (key : Name) : List (List Byte × Json) → Option (List SVariant)
+  | [] => none
+  | (k, v) :: rest =>
+    if k = key then
+      match v with
+      | .arr xs => variantsOfJsonList xs
+      | _ => none
+    else variantsGet key rest
+end
+
+mutual
+/-- heap cost of a `Value` as `allocDyn` (Model/Dyn.lean) counts: 1 per node,
+the bytes of every `String`, 1 per map entry (plus its key bytes). -/
+def Json.cost : Json → Nat
+  | .str s => 1 + s.length
+  | .arr xs => 1 + Json.costList xs
+  | .obj kvs => 1 + Json.costKvs kvs
+  | _ => 1
+def Json.costList : List Json → Nat
+  | [] => 0
+  | x :: xs => x.cost + Json.costList xs
+def Json.costKvs : List (List Byte × Json) → Nat
+  | [] => 0
+  | (k, v) :: rest => k.length + 1 + v.cost + Json.costKvs rest
+end
 
 end Postcard
